@@ -1321,22 +1321,37 @@ impl<'a, R: FileManager> FrontendCtx<'a, R> {
             ),
         }
     }
-    /// Does `rt` lead - through references, aliases and intersections only, i.e. without passing a
-    /// type constructor - to a named type whose extraction has not finished yet?
-    fn reaches_type_in_progress(&self, rt: &Runtype, seen: &mut Vec<RuntypeUUID>) -> bool {
+    /// Does `rt` lead back to the named type `target` through references and intersections only
+    /// (an `extends` clause is an intersection), i.e. without passing a type constructor? Named
+    /// types whose extraction has not finished are not looked into: they ask the same question
+    /// about themselves when they finish.
+    fn leads_back_through_all_of(
+        &self,
+        rt: &Runtype,
+        target: &RuntypeUUID,
+        passed_all_of: bool,
+        seen: &mut Vec<(RuntypeUUID, bool)>,
+    ) -> bool {
         match &rt.kind {
             RuntypeKind::Ref(r) => {
-                if seen.contains(r) {
+                if r == target {
+                    return passed_all_of;
+                }
+                let key = (r.clone(), passed_all_of);
+                if seen.contains(&key) {
                     return false;
                 }
-                seen.push(r.clone());
+                seen.push(key);
                 match self.partial_validators.get(r) {
-                    Some(None) => true,
-                    Some(Some(schema)) => self.reaches_type_in_progress(schema, seen),
-                    None => false,
+                    Some(Some(schema)) => {
+                        self.leads_back_through_all_of(schema, target, passed_all_of, seen)
+                    }
+                    _ => false,
                 }
             }
-            RuntypeKind::AllOf(vs) => vs.iter().any(|v| self.reaches_type_in_progress(v, seen)),
+            RuntypeKind::AllOf(vs) => vs
+                .iter()
+                .any(|v| self.leads_back_through_all_of(v, target, true, seen)),
             _ => false,
         }
     }
@@ -1363,12 +1378,6 @@ impl<'a, R: FileManager> FrontendCtx<'a, R> {
                         &anchor,
                     )?;
 
-                    // `interface T extends T`, or a longer way back through `extends` clauses,
-                    // aliases and intersections: nothing to take the members from, and the
-                    // emitted validator would call itself without end
-                    if self.reaches_type_in_progress(&id_ty, &mut vec![]) {
-                        return self.error(&anchor, DiagnosticInfoMessage::InterfaceExtendsItself);
-                    }
                     vs.push(id_ty);
                 }
                 _ => {
@@ -2196,6 +2205,15 @@ impl<'a, R: FileManager> FrontendCtx<'a, R> {
             self.generic_instantiations_in_progress -= 1;
         }
         match ty {
+            // `interface T extends T`, or a longer way back through `extends` clauses, aliases
+            // and intersections: nothing to take the members from, and the emitted validator
+            // would call itself without end. (Asked when the type is complete: while it is being
+            // read, a type that is merely still in progress further out - `interface A { b: B }`,
+            // `interface B extends A` - is no cycle.)
+            Ok(ty) if self.leads_back_through_all_of(&ty, &rt_uuid, false, &mut vec![]) => {
+                self.insert_definition(rt_uuid, Runtype::any())?;
+                self.error(anchor, DiagnosticInfoMessage::InterfaceExtendsItself)
+            }
             Ok(ty) => self.insert_definition(rt_uuid.clone(), ty),
             Err(e) => {
                 self.insert_definition(rt_uuid, Runtype::any())?;
